@@ -40,6 +40,7 @@ import (
 	"github.com/AliceO2Group/Control/common/logger/infologger"
 	"github.com/AliceO2Group/Control/common/utils"
 	"github.com/AliceO2Group/Control/common/utils/uid"
+	"github.com/AliceO2Group/Control/common/verifhook"
 	"github.com/AliceO2Group/Control/core/repos"
 	"github.com/AliceO2Group/Control/core/task/sm"
 	"github.com/AliceO2Group/Control/core/task/taskclass"
@@ -588,6 +589,7 @@ func (m *Manager) acquireTasks(envId uid.ID, taskDescriptors Descriptors) (err e
 				//   and we are ready to update the envId
 				for taskPtr, descriptor := range deployedTasks {
 					taskPtr.SetParent(descriptor.TaskRole)
+					verifhook.Point("task.lock", "task", taskPtr.taskId, "env", envId.String(), "class", taskPtr.className)
 					// Ensure everything is filled out properly
 					if !taskPtr.IsLocked() {
 						log.WithField("task", taskPtr.taskId).Warning("cannot lock newly deployed task")
@@ -626,6 +628,7 @@ func (m *Manager) acquireTasks(envId uid.ID, taskDescriptors Descriptors) (err e
 		var deployedTaskIds []string
 		for taskPtr := range deployedTasks {
 			taskPtr.SetParent(nil)
+			verifhook.Point("task.unlock", "task", taskPtr.taskId, "env", envId.String(), "why", "deployment failed")
 			deployedTaskIds = append(deployedTaskIds, taskPtr.taskId)
 		}
 
@@ -648,6 +651,7 @@ func (m *Manager) acquireTasks(envId uid.ID, taskDescriptors Descriptors) (err e
 		}
 		for taskPtr, descriptor := range tasksAlreadyRunning {
 			taskPtr.SetParent(descriptor.TaskRole)
+			verifhook.Point("task.lock", "task", taskPtr.taskId, "env", envId.String(), "class", taskPtr.className, "reused", true)
 			taskPtr.GetParent().SetTask(taskPtr)
 		}
 	}
@@ -687,6 +691,7 @@ func (m *Manager) releaseTask(envId uid.ID, task *Task) error {
 	}
 
 	task.SetParent(nil)
+	verifhook.Point("task.unlock", "task", task.taskId, "env", envId.String(), "why", "release")
 
 	return nil
 }
@@ -1119,6 +1124,9 @@ func (m *Manager) KillTasks(taskIds []string) (killed Tasks, running Tasks, err 
 }
 
 func (m *Manager) doKillTask(task *Task) error {
+	if verifhook.Enabled {
+		verifhook.Point("task.kill.send", "task", task.taskId, "locked", task.IsLocked(), "env", task.GetEnvironmentId().String())
+	}
 	return m.schedulerState.killTask(context.TODO(), task.GetMesosCommandTarget())
 }
 
@@ -1264,6 +1272,14 @@ func (m *Manager) handleMessage(tm *TaskmanMessage) error {
 				mesosState == mesos.TASK_RUNNING ||
 				mesosState == mesos.TASK_KILLING ||
 				mesosState == mesos.TASK_UNKNOWN) {
+			if verifhook.Enabled {
+				rt, rtEnv := m.GetTask(mesosStatus.TaskID.GetValue()), ""
+				if rt != nil {
+					rtEnv = rt.GetEnvironmentId().String()
+				}
+				verifhook.Point("task.reconcile.kill", "task", mesosStatus.TaskID.GetValue(), "inroster", rt != nil,
+					"locked", rt != nil && rt.IsLocked(), "env", rtEnv)
+			}
 			killCall := calls.Kill(mesosStatus.TaskID.GetValue(), mesosStatus.AgentID.GetValue())
 			calls.CallNoData(context.TODO(), m.schedulerState.cli, killCall)
 		} else {
